@@ -11,6 +11,7 @@ import (
 	"crypto/sha256"
 	"encoding/hex"
 	"fmt"
+	"net"
 	"os"
 	"path/filepath"
 	"sort"
@@ -114,6 +115,16 @@ func runProject(optS string, files [][2][]byte) (out string) {
 			continue
 		}
 		os.MkdirAll(filepath.Dir(p), 0o755)
+		if strings.HasSuffix(string(f[0]), "@@socket") {
+			// a directory entry that exists, is not a directory and cannot be read (the harness runs as root, so a
+			// permission bit would not do): a unix socket
+			ln, err := net.Listen("unix", strings.TrimSuffix(p, "@@socket"))
+			if err != nil {
+				return "harness-error " + hxs(err.Error())
+			}
+			defer ln.Close()
+			continue
+		}
 		if err := os.WriteFile(p, f[1], 0o644); err != nil {
 			return "harness-error " + hxs(err.Error())
 		}
